@@ -60,6 +60,7 @@ var synthOpts = map[string]Target{
 	"record":        {NonNil: true},
 	"stepFailed":    {NonNil: true},
 	"counterOf":     {NonNil: true},
+	"parseBlob":     {Oracle: true, OutParams: []string{"v"}},
 	"emit":          {Oracle: true, Effect: true},
 	"tryEmit":       {Oracle: true, Effect: true},
 }
@@ -79,6 +80,14 @@ var synthOracles = map[string]func(g *gen, args []reflect.Value) []string{
 	"EffectPages": func(g *gen, args []reflect.Value) []string {
 		return append(pagesOracle(g, args), eventOracles(g, args)...)
 	},
+	"UseBlob": func(g *gen, args []reflect.Value) []string {
+		// parseBlob as a Coq function of the text: see synth.ParseBlobInto
+		return []string{`(fun (d : string) (b : synth_Blob) =>
+  if String.eqb d "" then (b, Some (Err "errors" "no data" []))
+  else if str_has_prefix "nil" d then (mk_Blob d None None, None)
+  else if str_has_prefix "empty" d then (mk_Blob d (Some []) (Some []), None)
+  else (mk_Blob d (Some [1; 2]) (Some [("k", d)]), None))`}
+	},
 	"Effects":    eventOracles,
 	"EffectTail": eventOracles,
 	"UsePages":   pagesOracle,
@@ -91,7 +100,7 @@ var synthOracles = map[string]func(g *gen, args []reflect.Value) []string{
 }
 
 // synthHelpers: exported functions of the corpus that are tested through their callers only.
-var synthHelpers = map[string]bool{"NewRec": true, "NewStrSet": true, "PagesOf": true}
+var synthHelpers = map[string]bool{"OpenHandle": true, "NewRec": true, "NewStrSet": true, "PagesOf": true}
 
 const storeLoad = `(fun (p k : string) => if String.eqb k "" then ("", Some (Err "errors" "empty key" [])) else (String.append p (String.append ":" k), None))`
 
@@ -134,7 +143,7 @@ func synthGen() (*gen, error) {
 	}
 	L := &loader{repo: "/", pkgs: map[string]*packages.Package{synthPath: p}, funcs: map[string]*funcDecl{}, vars: map[string]*varDecl{},
 		mutated: map[string]bool{}, scanned: map[string]bool{}}
-	table := []Target{{Pkg: synthPath, Type: "Finder", Nilable: true},
+	table := []Target{{Pkg: synthPath, Type: "Finder", Nilable: true}, {Pkg: synthPath, Type: "Handle", Nilable: true, Concrete: synthPath + ".FileHandle"}, {Pkg: synthPath, Type: "Blob", NilableFields: []string{"Delta", "Meta"}},
 		{Pkg: synthPath, Type: "Store", Opaque: true}, {Pkg: synthPath, Func: "Store.Load", Oracle: true}}
 	for _, d := range p.Syntax[0].Decls {
 		fd, ok := d.(*ast.FuncDecl)
@@ -276,7 +285,16 @@ func (g *gen) coqValue(v reflect.Value, r *Rng) string {
 		rec := g.recordOf(v.Type())
 		args := append([]string{rec.ctor}, g.sectionInst(rec.ctor)...)
 		for _, f := range rec.fields {
-			args = append(args, g.coqValue(v.FieldByName(f.goName), r))
+			fv := v.FieldByName(f.goName)
+			if f.nilable {
+				if fv.IsNil() {
+					args = append(args, "None")
+				} else {
+					args = append(args, "(Some "+g.coqValue(fv, r)+")")
+				}
+				continue
+			}
+			args = append(args, g.coqValue(fv, r))
 		}
 		return "(" + strings.Join(args, " ") + ")"
 	case reflect.Ptr:
@@ -484,6 +502,14 @@ func (g *gen) eqCheck(x string, v reflect.Value, t reflect.Type) string {
 		var cs []string
 		for _, f := range rec.fields {
 			sf, _ := t.FieldByName(f.goName)
+			if f.nilable {
+				if v.FieldByName(f.goName).IsNil() {
+					cs = append(cs, "(is_none ("+f.name+" "+x+"))")
+				} else {
+					cs = append(cs, "(match ("+f.name+" "+x+") with Some fv => "+g.eqCheck("fv", v.FieldByName(f.goName), sf.Type)+" | None => false end)")
+				}
+				continue
+			}
 			cs = append(cs, g.eqCheck("("+f.name+" "+x+")", v.FieldByName(f.goName), sf.Type))
 		}
 		return "(" + strings.Join(cs, " && ") + ")"
